@@ -901,7 +901,7 @@ func (g *Gen) execInstr(in ssa.Instruction) {
 		if g.pc != nil {
 			// ghost fields of a new object start at their zero value
 			tn := g.typeName(pt)
-			for _, gf := range g.pc.GhostFields {
+			for _, gf := range g.allGhostFields() {
 				if gf.Struct == tn || lastPkgElem(gf.Struct) == tn {
 					gt := g.resolveType(g.baseEnv(), gf.Type)
 					g.store(g.heap, Ptr{Prefix: p.Prefix + ".ghost:" + gf.Name, Idx: p.Idx, T: gt}, g.zero(gt))
